@@ -160,6 +160,57 @@ Proof.
       exists (S k). split; [rewrite Hp; lia|]. cbn [firstn grp]. unfold bl_step. rewrite El, Er. exact H1.
 Qed.
 
+(* a group that is never closed: the level stays >= 1 to the end of the string *)
+Fixpoint nz (u : str) (d : nat) : bool :=
+  match u with
+  | [] => true
+  | c :: t => match bl_step d c with O => false | S d' => nz t (S d') end
+  end.
+
+Lemma fcb_cases : forall s l i lst,
+  (exists k, fcb_pos s (S l) i lst = i + S k /\ grp (firstn (S k) s) (S l) = true) \/
+  (fcb_pos s (S l) i lst = i + length s /\ nz s (S l) = true).
+Proof.
+  induction s as [|c t IH]; intros l i lst; [right; cbn; split; [lia|reflexivity]|].
+  cbn [fcb_pos]. unfold is_lbrace, is_rbrace.
+  assert (Hstep : forall l' lst', bl_step (S l) c = S l' ->
+     fcb_pos t (S l') (S i) lst' = fcb_pos t (S l') (S i) lst' ->
+     (exists k, fcb_pos t (S l') (S i) lst' = i + S k /\ grp (firstn (S k) (c :: t)) (S l) = true) \/
+     (fcb_pos t (S l') (S i) lst' = i + length (c :: t) /\ nz (c :: t) (S l) = true)).
+  { intros l' lst' Hb _. destruct (IH l' (S i) lst') as [(k & Hp & Hg)|[Hp Hn]].
+    - left. exists (S k). split; [rewrite Hp; lia|]. cbn [firstn grp]. rewrite Hb. exact Hg.
+    - right. split; [rewrite Hp; cbn [length]; lia|]. cbn [nz]. rewrite Hb. exact Hn. }
+  destruct (N.eqb c c_lbrace) eqn:El.
+  - apply (Hstep (S l) (S i)); [unfold bl_step; now rewrite El|reflexivity].
+  - destruct (N.eqb c c_rbrace) eqn:Er.
+    + destruct l as [|l'].
+      * left. exists 0. split; [lia|]. cbn [firstn grp]. unfold bl_step. rewrite El, Er. reflexivity.
+      * apply (Hstep l' (S i)); [unfold bl_step; now rewrite El, Er|reflexivity].
+    + apply (Hstep l lst); [unfold bl_step; now rewrite El, Er|reflexivity].
+Qed.
+
+Lemma nz_spec : forall u l pb cur, nz u (S l) = true -> spec_tok u (S l) pb cur = flush (rev u ++ cur) [].
+Proof.
+  induction u as [|c t IH]; intros l pb cur H; [reflexivity|].
+  cbn [nz] in H. cbn [spec_tok Nat.eqb andb].
+  destruct (bl_step (S l) c) as [|d'] eqn:Eb; [discriminate|].
+  rewrite (IH d' (N.eqb c c_bslash) (c :: cur) H). cbn [rev]. now rewrite <- app_assoc.
+Qed.
+
+Lemma find_closing_brace_cases rest u r' : find_closing_brace rest = (u, r') ->
+  rest = u ++ r' /\ (grp u 1 = true \/ (r' = [] /\ nz u 1 = true)).
+Proof.
+  intros F. split; [now apply find_closing_brace_app|].
+  unfold find_closing_brace in F.
+  destruct (fcb_cases rest 0 0 0) as [(k & Hp & Hg)|[Hp Hn]]; rewrite Hp in F.
+  - change ((firstn (S k) rest, skipn (S k) rest) = (u, r')) in F.
+    assert (Eu : u = firstn (S k) rest) by congruence. left. now rewrite Eu.
+  - right. cbn [Nat.add] in F. destruct rest as [|c t].
+    + cbn in F. injection F as <- <-. auto.
+    + change (Nat.eqb (length (c :: t)) 0) with false in F. cbv iota in F.
+      rewrite firstn_all, skipn_all in F. injection F as <- <-. auto.
+Qed.
+
 Lemma step_to_zero_not_bslash l c : bl_step (S l) c = 0 -> N.eqb c c_bslash = false.
 Proof.
   unfold bl_step. destruct (N.eqb c c_lbrace); [discriminate|].
@@ -192,12 +243,12 @@ Proof. rewrite concat_snoc_str. apply rev_app_distr. Qed.
 
 (* the loop of split_tex_string against the specification *)
 Lemma split_loop_spec : forall fuel s result wp r,
-  split_loop fuel sep_space s result wp = Some r -> closed s ->
+  split_loop fuel sep_space s result wp = Some r ->
   NE r = NE result ++ spec_tok s 0 false (rev (concat wp)).
 Proof.
   induction fuel as [|f IH]; intros s result wp r; cbn [split_loop]; [discriminate|].
   destruct (partition_brace s) as [[h b] rest] eqn:P.
-  intros H Hs.
+  intros H.
   assert (Hh : forallb nolb h = true).
   { destruct b; [apply partition_brace_true in P|apply partition_brace_false in P]; apply P. }
   set (R := if b then c_lbrace :: rest else @nil char).
@@ -239,16 +290,18 @@ Proof.
   rewrite (Hhead result1 wp1 eq_refl). clear Hhead.
   destruct b; unfold R.
   - destruct (find_closing_brace rest) as [u r'] eqn:F.
-    assert (Hg : closed (c_lbrace :: rest)).
-    { rewrite Es in Hs. change (lvl (h ++ R) 0 = 0) in Hs. rewrite lvl_app in Hs. apply nolb_closed in Hh.
-      change (lvl h 0 = 0) in Hh. rewrite Hh in Hs. exact Hs. }
-    destruct (find_closing_brace_closed _ _ _ Hg F) as [_ Hr'].
-    destruct (find_closing_brace_grp _ _ _ Hg F) as [-> Hgr].
-    apply IH in H; [|exact Hr']. rewrite H. f_equal.
-    rewrite spec_tok_step0. change (is_sep_at false c_lbrace (hd_error (u ++ r'))) with false. cbv iota.
-    change (bl_step 0 c_lbrace) with 1.
-    rewrite (grp_spec u 0 r' (N.eqb c_lbrace c_bslash) (c_lbrace :: rev (concat wp1)) Hgr). f_equal.
-    rewrite concat_app. cbn [concat]. rewrite app_nil_r, !rev_app_distr. cbn [rev app]. now rewrite <- app_assoc.
+    destruct (find_closing_brace_cases _ _ _ F) as [-> [Hgr|[-> Hnz]]].
+    + apply IH in H. rewrite H. f_equal.
+      rewrite spec_tok_step0. change (is_sep_at false c_lbrace (hd_error (u ++ r'))) with false. cbv iota.
+      change (bl_step 0 c_lbrace) with 1.
+      rewrite (grp_spec u 0 r' (N.eqb c_lbrace c_bslash) (c_lbrace :: rev (concat wp1)) Hgr). f_equal.
+      rewrite concat_app. cbn [concat]. rewrite app_nil_r, !rev_app_distr. cbn [rev app]. now rewrite <- app_assoc.
+    + apply IH in H. rewrite H. f_equal. rewrite app_nil_r.
+      rewrite spec_tok_step0. change (is_sep_at false c_lbrace (hd_error u)) with false. cbv iota.
+      change (bl_step 0 c_lbrace) with 1.
+      rewrite (nz_spec u 0 (N.eqb c_lbrace c_bslash) (c_lbrace :: rev (concat wp1)) Hnz).
+      cbn [spec_tok]. f_equal.
+      rewrite concat_app. cbn [concat]. rewrite app_nil_r, !rev_app_distr. cbn [rev app]. now rewrite <- app_assoc.
   - injection H as <-. destruct wp1 as [|x wp1'].
     + cbn [concat rev spec_tok flush]. now rewrite app_nil_r.
     + rewrite NE_app. f_equal. cbn [spec_tok]. rewrite NE_cons_flush. cbn [NE filter].
@@ -263,7 +316,63 @@ Proof.
   assert (HG := split_loop_G _ _ _ _ _ E Hs (Forall_nil _) G_nil).
   assert (Hm : map strip r0 = r0).
   { clear E. induction HG as [|x l Hx Hl IH]; [reflexivity|]. cbn [map]. now rewrite IH, (G_strip x Hx). }
-  rewrite Hm. f_equal. fold (NE r0). now rewrite (split_loop_spec _ _ _ _ _ E Hs).
+  rewrite Hm. f_equal. fold (NE r0). now rewrite (split_loop_spec _ _ _ _ _ E).
+Qed.
+
+(* ---- every string: split_tex_string(s) = [t.strip() for t in spec_tokens(s)].  (Only a token that ends inside a
+   never-closed group can end in whitespace; for closed strings strip changes nothing, see above.) ---- *)
+Definition fns (x : str) : Prop := match x with [] => False | c :: _ => is_space c = false end.
+
+Lemma fns_snoc x c : fns x -> fns (x ++ [c]).
+Proof. destruct x; [contradiction|exact (fun H => H)]. Qed.
+
+Lemma spec_tok_fns : forall s d pb cur, (d = 0 \/ cur <> []) -> (cur = [] \/ fns (rev cur)) ->
+  Forall fns (spec_tok s d pb cur).
+Proof.
+  induction s as [|c t IH]; intros d pb cur Hd Hc; cbn [spec_tok].
+  - destruct cur; [constructor|]. destruct Hc as [Hc|Hc]; [discriminate|]. constructor; [exact Hc|constructor].
+  - destruct (Nat.eqb d 0 && is_sep_at pb c (hd_error t)) eqn:E.
+    + assert (Hr : Forall fns (spec_tok t 0 (N.eqb c c_bslash) [])) by (apply IH; auto).
+      destruct cur; [exact Hr|]. destruct Hc as [Hc|Hc]; [discriminate|]. constructor; assumption.
+    + apply IH; [right; discriminate|]. right. cbn [rev].
+      destruct Hc as [->|Hc]; [|now apply fns_snoc].
+      destruct Hd as [->|Hd]; [|congruence]. cbn [Nat.eqb andb] in E. cbn [rev app fns].
+      unfold is_sep_at in E. destruct (is_space c); [discriminate|reflexivity].
+Qed.
+
+Lemma lstrip_snoc_nonspace a c : is_space c = false -> lstrip (a ++ [c]) <> [].
+Proof.
+  intros Hc. induction a as [|x a IH]; cbn [app lstrip]; [rewrite Hc; discriminate|].
+  destruct (is_space x); [exact IH|discriminate].
+Qed.
+
+Lemma fns_strip_nonempty x : fns x -> strip x <> [].
+Proof.
+  destruct x as [|c t]; [contradiction|]. cbn [fns]. intros Hc. unfold strip. cbn [lstrip]. rewrite Hc.
+  unfold rstrip. cbn [rev]. intros E. apply (f_equal (@rev _)) in E. rewrite rev_involutive in E.
+  now apply (lstrip_snoc_nonspace (rev t) c Hc).
+Qed.
+
+Lemma NE_map_strip (r : list str) : (forall x, In x r -> x <> [] -> strip x <> []) ->
+  NE (map strip r) = map strip (NE r).
+Proof.
+  induction r as [|x r IH]; intros H; [reflexivity|]. cbn [map]. unfold NE in *. cbn [filter].
+  rewrite IH by (intros y Hy; apply H; now right).
+  destruct x as [|c x']; [reflexivity|]. cbn [negb].
+  destruct (strip (c :: x')) eqn:E; [exfalso; apply (H (c :: x')); [now left|discriminate|exact E]|].
+  cbn [negb map]. now rewrite E.
+Qed.
+
+Lemma tokenizer_spec_all_pf s : split_tex_space s = Ok (map strip (spec_tokens s)).
+Proof.
+  unfold split_tex_space, split_tex_string_gen.
+  destruct (split_loop_fuel sep_space (S (length s)) s [] [] (Nat.lt_succ_diag_r _)) as [r0 E]. rewrite E.
+  assert (Hs := split_loop_spec _ _ _ _ _ E). cbn [NE filter app concat rev] in Hs. fold (spec_tokens s) in Hs.
+  f_equal. fold (NE (map strip r0)). rewrite <- Hs. apply NE_map_strip.
+  intros x Hx Hne. apply fns_strip_nonempty.
+  assert (Hin : In x (NE r0)) by (apply filter_In; split; [exact Hx|destruct x; [congruence|reflexivity]]).
+  rewrite Hs in Hin. assert (HF := spec_tok_fns s 0 false [] (or_introl eq_refl) (or_introl eq_refl)).
+  rewrite Forall_forall in HF. now apply HF.
 Qed.
 
 (* the specification on its own terms: a few values *)
